@@ -316,6 +316,14 @@ func (g *Gen) structType(pkg string, depth int, tparams []string) *Ty {
 				}
 			}
 		}
+		if g.pick(7, "embedbasic") == 0 { // embedded predeclared type: the field is named after it (unexported!)
+			bn := rapid.SampledFrom([]string{"int", "string", "byte", "uint8", "uint16", "rune", "int32", "float64", "error", "bool"}).Draw(g.t, "ebasic")
+			if !used[bn] {
+				used[bn] = true
+				t.Fields = append(t.Fields, Field{Name: bn, T: &Ty{K: "basic", Name: bn}, Embedded: true, Tag: rapid.SampledFrom(tags).Draw(g.t, "tag")})
+				continue
+			}
+		}
 		name := rapid.SampledFrom(fieldNames).Draw(g.t, "fname")
 		if used[name] && name != "_" {
 			continue
